@@ -160,7 +160,10 @@ def run_shard(spec, ctx):
                     os.makedirs(os.path.join(d, sub), exist_ok=True)
                     with open(os.path.join(d, sub, "command"), "wb") as f:
                         f.write(b"\n".join(words) + b"\n")
-                words = [k for _, ks, _ in files for k in ks] + [b"shared", b"cmdword", b"bashword"]
+                for nm, ws in (("Injection", [b"shared", b"inject"]), ("injection", [b"shared", b"Inject"])):
+                    with open(os.path.join(d, nm), "wb") as f:
+                        f.write(b"\n".join(ws) + b"\n")
+                words = [k for _, ks, _ in files for k in ks] + [b"shared", b"cmdword", b"bashword", b"inject"]
                 corpus = [b" ".join(r.choice(words) for _ in range(6)) for _ in range(30)]
                 cpath = os.path.join(work, f"corpus{j}.json")
                 with open(cpath, "w") as f:
